@@ -57,7 +57,9 @@ func vhC08Value(i int, prev uint64, class int) uint64 {
 		}
 		return prev + 1 + low
 	case 1:
-		return uint64(i+1)<<56 | low
+		// keeps bit 63 of the previous value, so that the list stays increasing
+		// after a first value of class 2
+		return prev&(1<<63) | uint64(i+1)<<56 | low
 	default:
 		return 1<<63 | low
 	}
